@@ -145,7 +145,12 @@ fn asset(name: &str) -> Arc<Vec<u8>> {
     }
     let bytes = if let Some(rest) = name.strip_prefix("signed:") {
         let (file, format) = rest.split_once('|').expect("signed:<file>|<format>");
-        sdk::sign_simple(format, &sdk::fixture(file), "c35 prepared").unwrap_or_else(|e| panic!("prepare {name}: {e}"))
+        sdk::sign_simple(format, &asset(file), "c35 prepared").unwrap_or_else(|e| panic!("prepare {name}: {e}"))
+    } else if let Some(rest) = name.strip_prefix("head64k:") {
+        // the first 64 KiB of a large audio fixture: tag/metadata blocks intact, payload cut (copied verbatim by the SDK)
+        let mut b = sdk::fixture(rest);
+        b.truncate(65536);
+        b
     } else {
         sdk::fixture(name)
     };
@@ -752,6 +757,11 @@ fn main() {
     }
     for (fmt, f) in [("image/jpeg", "C.jpg"), ("image/jpeg", "CA.jpg"), ("video/mp4", "video1.mp4")] {
         ops.push(IoOp::new("read", fmt, f));
+    }
+    // small stand-ins for the MB-sized audio fixtures, so that quick covers their handlers with every piece size / every k
+    for (fmt, f) in [("audio/mpeg", "head64k:sample1.mp3"), ("audio/flac", "head64k:sample1.flac")] {
+        ops.push(IoOp::new("sign", fmt, f));
+        ops.push(IoOp::new("read", fmt, &format!("signed:{f}|{fmt}")));
     }
     for (fmt, f) in [
         ("image/jpeg", "C.jpg"),
